@@ -94,6 +94,62 @@ while True:
     run(1, 2)
     blink()
 """,
+    "suffix_names": HDR + """
+def report(v):
+    db.Setting = v
+
+def pre_update(v):
+    if v > 100:
+        return
+    report(v + 10)
+
+def update(v):
+    pre_update(v)
+    report(v + 20)
+    report(v + 30)
+
+update(d0.Setting)
+update(2)
+report(999)
+""",
+    "suffix_names_early_return": HDR + """
+def show(v):
+    db.Mode = v
+
+def substep(v):
+    show(v * 2)
+    if v > 5:
+        return v
+    return v + 1
+
+def step(v):
+    if v < 0:
+        return 0
+    w = substep(v)
+    show(w)
+    return w + 1
+
+db.Setting = step(d0.Setting)
+db.On = step(3)
+show(7)
+""",
+    "prefix_names": HDR + """
+def run(v):
+    db.Setting = v
+
+def run_all(v):
+    run(v)
+    run(v + 1)
+
+def run_all_twice(v):
+    run_all(v)
+    run_all(v + 5)
+
+run_all_twice(d0.Setting)
+run_all(1)
+run(2)
+run_all_twice(9)
+""",
 }
 
 
